@@ -10,4 +10,5 @@ CONSTANTS
   MaxRead = 2
   MaxStall = 1
   MaxSweep = 0
+  MaxLeave = 0
 PROPERTY EventuallyClosed
